@@ -96,6 +96,9 @@ def build(case):
         _k, cat, i_c2s, i_s2c, role, r = case
         lists[cat] = [b(ALPHA[cat][i]) for i in i_s2c]
         c2s[cat] = [b(ALPHA[cat][i]) for i in i_c2s]
+        # a key exchange and a host key the tool can probe, so that the follow-up connections happen as well
+        lists['kex'] = [b'curve25519-sha256', b'diffie-hellman-group-exchange-sha256']
+        lists['key'] = [b'ssh-ed25519', b'rsa-sha2-512']
     elif kind == 'comp':
         _k, ci, bi, role, r = case
         comp, banner = COMPS[ci], BANNERS[bi]
